@@ -28,3 +28,23 @@ Theorem C18_finalising_done_means_clean :
   br' = None /\ anno = (RolloutSM.wl_exists w && RolloutSM.wl_consistent w && RolloutSM.wl_in_progress w).
 Proof. exact Proofs.RolloutSM.do_finalising_done_clean. Qed.
 Print Assumptions C18_finalising_done_means_clean.
+
+(* ---- the TrafficRouting controller ---- *)
+From RV Require Model.TrafficMgr Model.TRCtl Proofs.TRCtl.
+(* for every persisted phase, set of finalizers, network state, in-memory grace state and injected gateway error: the
+   controller gives up its own finalizer only in a reconcile of a deleting object whose cleanup completed without error;
+   the canary route is gone when the finalizer goes *)
+Theorem C18_trafficrouting_finalizer_guard : forall o n g,
+  TRCtl.to_own_finalizer o = true -> TRCtl.ro_own_finalizer (TRCtl.tr_reconcile o n g) = false ->
+  TRCtl.to_deleting o = true /\ TRCtl.ro_err (TRCtl.tr_reconcile o n g) = false /\
+  TrafficMgr.n_route (TrafficMgr.apply_writes n (TRCtl.ro_writes (TRCtl.tr_reconcile o n g))) = TrafficMgr.RNone.
+Proof. exact Proofs.TRCtl.tr_finalizer_guard. Qed.
+Print Assumptions C18_trafficrouting_finalizer_guard.
+
+(* and deletion is not blocked for ever: with the gateway restored and the grace waits over, the next reconcile drops it *)
+Theorem C18_trafficrouting_deletion_not_blocked : forall o n g,
+  TRCtl.to_deleting o = true -> TRCtl.to_gateway_fails o = false -> TrafficMgr.n_route n = TrafficMgr.RNone ->
+  (TRCtl.to_zero_grace o = true \/ (TrafficMgr.g_lookup TrafficMgr.GRestoreGateway g <> Some false /\ TrafficMgr.g_lookup TrafficMgr.GRestoreService g <> Some false)) ->
+  TRCtl.ro_own_finalizer (TRCtl.tr_reconcile o n g) = false.
+Proof. exact Proofs.TRCtl.tr_deletion_not_blocked. Qed.
+Print Assumptions C18_trafficrouting_deletion_not_blocked.
